@@ -319,7 +319,7 @@ def run(ctx):
         "likelihood profiles narrow, wide, ties, flat, spike, -inf entries, a NaN entry, all NaN (stub helper) and the real kernel for 1 in 9; "
         "non-trivial = more than one iteration, or a raise",
         assumptions=["as C02 (decision margin 1e-9, recording Generator)", "batch sizes are read off the sizes of the successive uniform() calls"],
-        trusted_extra=["Coq-Interval through Base/RealEnc.v (acceptance decisions)"],
+        trusted_extra=["Coq-Interval through Base/RealEnc.v (acceptance decisions)", "translators tools/py2v_reject.py, tools/consts2v.py (fail-closed)"],
     )
 
 
